@@ -120,20 +120,22 @@ def one_file(rep, tmp, fil, X, nbits, gulp, start, nsamps, tag, tier):
             run(f"subband(dm={dm},nsub={nsub})", "subband", lambda: fil.subband(dm, nsub, osub, **kw), want, nbits_out=32, tol=1e-3)
     # channel / band extraction
     chans = [0, nchans - 1, 3]
-    rep.case(("extract_chans", nbits, tag, gulp, start, nsamps))
-    try:
-        names = fil.extract_chans(chans, os.path.join(tmp, "outc"), gulp=gulp, start=start, nsamps=nsamps, quiet=True)
-        rep.check(len(names) == len(chans), "extract_chans: number of files", function="base.py::Filterbank.extract_chans", input=inp)
-        for ch, nm in zip(chans, names):
-            compare(rep, f"extract_chans[{ch}]", "extract_chans", inp, nm, sub[:, [ch]], nbits_out=32)
-    except Exception as exc:  # noqa: BLE001
-        rep.fail(f"extract_chans raised {type(exc).__name__}", function="base.py::Filterbank.extract_chans", input=inp, observed=str(exc)[:200])
-    for (c0, nc, per) in ((0, nchans, None), (2, 4, 2), (0, 4, 4), (4, 4, 2)):
-        if nbits < 8 and ((per or nc) * nbits) % 8:
-            continue
-        rep.case(("extract_bands", nbits, tag, gulp, start, nsamps, c0, nc, per))
+    for bs in (200, 2):  # one batch of open files, and several batches
+        rep.case(("extract_chans", nbits, tag, gulp, start, nsamps, bs))
         try:
-            names = fil.extract_bands(c0, nc, per, os.path.join(tmp, "outb"), gulp=gulp, start=start, nsamps=nsamps, quiet=True)
+            names = fil.extract_chans(chans, os.path.join(tmp, "outc"), batch_size=bs, gulp=gulp, start=start, nsamps=nsamps, quiet=True)
+            rep.check(len(names) == len(chans), "extract_chans: number of files", function="base.py::Filterbank.extract_chans", input=inp)
+            for ch, nm in zip(chans, names):
+                compare(rep, f"extract_chans[{ch}]", "extract_chans", dict(inp, batch_size=bs), nm, sub[:, [ch]], nbits_out=32,
+                        header=dict(fch1=hd.fch1 + ch * hd.foff))
+        except Exception as exc:  # noqa: BLE001
+            rep.fail(f"extract_chans raised {type(exc).__name__}", function="base.py::Filterbank.extract_chans", input=inp, observed=str(exc)[:200])
+    for (c0, nc, per, bs) in ((0, nchans, None, 200), (2, 4, 2, 200), (0, 4, 4, 200), (4, 4, 2, 200), (0, 8, 2, 3), (2, 6, 2, 1)):
+        if (nbits < 8 and ((per or nc) * nbits) % 8) or c0 + nc > nchans:
+            continue
+        rep.case(("extract_bands", nbits, tag, gulp, start, nsamps, c0, nc, per, bs))
+        try:
+            names = fil.extract_bands(c0, nc, per, os.path.join(tmp, "outb"), batch_size=bs, gulp=gulp, start=start, nsamps=nsamps, quiet=True)
             p = per or nc
             rep.check(len(names) == nc // p, "extract_bands: number of files", function="base.py::Filterbank.extract_bands",
                       input=dict(inp, chanstart=c0, nchans_sel=nc, chanpersub=per), observed=len(names), required=nc // p)
